@@ -404,4 +404,3 @@ func diskSortedCopy(l []string) []string {
 	sort.Strings(o)
 	return o
 }
-
